@@ -45,6 +45,14 @@ func cloneElements(fn *ssa.Function, withClosures bool) map[string]bool {
 						if callee.Parent() != nil {
 							continue // closure invocation; its body is included
 						}
+						// only calls that can influence the result: the module's own functions and error construction.
+						// Logging, metrics, timing and formatting helpers of other packages are not part of the clone contract.
+						if !core.InModule(callee) && !(core.FnPkg(callee) != nil && core.FnPkg(callee).Path() == "fmt" && callee.Name() == "Errorf") {
+							continue
+						}
+						if pk := core.FnPkg(callee); pk != nil && (strings.HasSuffix(pk.Path(), "/pkg/metrics") || strings.HasSuffix(pk.Path(), "/pkg/sql/monitor")) {
+							continue
+						}
 						name = core.FnName(callee)
 					} else {
 						name = "dynamic call"
